@@ -1,5 +1,7 @@
 import NixModel.Pure.NdArray
 import NixModel.Lemmas.C01Steps
+import NixModel.Lemmas.C01History
+import NixModel.Lemmas.C01Region
 
 /-!
 # C01 — array data is stored and returned exactly (type, shape, values)
@@ -54,7 +56,155 @@ example : AppendOk [2, 3] [2, 0] 1 := by
 example : ¬ AppendOk [2] [2] (-1) := fun h => absurd h.2.1 (by decide)
 example : ¬ AppendOk [2] [2] 1 := fun h => absurd h.2.2.1 (by decide)
 
+/-! ## histories -/
+
+/-- For every array and every list of write / assign / append / resize / reopen steps, what the model reads
+afterwards is the fold of the reference semantics (`refStep`: an accepted step is a functional update of the map
+from multi-indices to elements — `written` names the source element per multi-index, everything else keeps its
+value or is the fill value when new; a step that cannot be performed changes nothing) — same shape, same element
+on every valid multi-index; and the element type and filter flag are the ones the array was created with. -/
+theorem C01_history (A : DArr) (steps : List Step) :
+    EqArr (run A steps).arr (refRun A.dtype.fill A.arr steps) ∧
+    (run A steps).dtype = A.dtype ∧ (run A steps).compressed = A.compressed :=
+  ⟨run_refines steps A, run_keeps_meta steps A⟩
+
+/-- last write wins, per multi-index: if step `s` (accepted on the array reached after `pre`) puts `v` on `idx`
+and no later step of `post` touches `idx` or moves it out of bounds, then `idx` reads `v` at the end -/
+theorem C01_last_write_wins (A : DArr) (pre post : List Step) (s : Step) (idx : List Nat) (v : Elem)
+    (hacc : Accepts (run A pre).arr.shape s)
+    (hw : written (run A pre).arr.shape s idx = some v)
+    (hpost : Untouched (newShape (run A pre).arr.shape s) post idx) :
+    (run A (pre ++ s :: post)).arr.get idx = v ∧
+    inBounds idx (run A (pre ++ s :: post)).arr.shape = true := by
+  have hrun : run A (pre ++ s :: post) = run (stepState (run A pre) s) post := by
+    rw [run_append]; rfl
+  rw [hrun]
+  exact step_then_untouched (run A pre) s post idx v hacc hw hpost
+
+/-- no step changes the element type or the filter flag; write, assign and reopen keep the shape; a refused step
+changes nothing at all (append and resize change the shape exactly as `newShape` says: `C01_history`) -/
+theorem C01_dtype_shape_stable (A : DArr) (s : Step) :
+    (stepState A s).dtype = A.dtype ∧ (stepState A s).compressed = A.compressed ∧
+    (Accepts A.arr.shape s → (stepState A s).arr.shape = newShape A.arr.shape s) ∧
+    (¬ Accepts A.arr.shape s → (stepState A s).arr.shape = A.arr.shape) ∧
+    (∀ e, step A s = .error e → stepState A s = A) := by
+  refine ⟨(stepState_meta A s).1, (stepState_meta A s).2, ?_, ?_, ?_⟩
+  · intro h
+    rw [(stepState_refines A s).1, refStep_pos _ _ _ h]
+  · intro h
+    rw [(stepState_refines A s).1, refStep_neg _ _ _ h]
+  · intro e he
+    unfold stepState
+    rw [he]
+
+/-- the stored elements stay values of the element type: if they were at the start and every step supplies
+values of the array's element type, every element read after any history is one -/
+theorem C01_elements_typed (A : DArr) (steps : List Step) (hA : Typed A)
+    (hs : ∀ s ∈ steps, StepTyped A.dtype s) : Typed (run A steps) :=
+  run_typed steps A hA hs
+
+/-- reading back through the selection that was assigned returns the (broadcast) source, for every selection
+`select` can produce (integers, slices with any positive step, negative and clipped bounds); everything outside
+the selection and the shape are untouched -/
+theorem C01_assign_exact (A B : DArr) (ixs : List Ix) (D : NdArray Elem) (sel : List AxisSel)
+    (hsel : select A.arr.shape ixs = .ok sel) (h : assign A ixs D = .ok B) :
+    B.arr.shape = A.arr.shape ∧
+    (∀ r, inBounds r (selShape sel) = true →
+      (B.arr.gather sel).get r = D.get (bcastIdx sel (fullRel sel r) D.shape)) ∧
+    (∀ idx, relIdx sel idx = none → B.arr.get idx = A.arr.get idx) := by
+  unfold assign at h
+  rw [hsel] at h
+  simp only at h
+  split at h
+  · cases h
+    refine ⟨rfl, ?_, ?_⟩
+    · intro r hr
+      simp only [NdArray.gather, NdArray.setRegion, relIdx_absIdx sel r (select_wf _ _ _ hsel) hr]
+    · intro idx hn
+      simp only [NdArray.setRegion, hn]
+  · cases h
+
+/-- … in particular a scalar source fills the region, and a source of exactly the region's shape assigned
+through slices reads back unchanged -/
+theorem C01_assign_exact_sources (A B : DArr) (ixs : List Ix) (D : NdArray Elem) (sel : List AxisSel)
+    (hsel : select A.arr.shape ixs = .ok sel) (h : assign A ixs D = .ok B) :
+    (D.shape = [] → ∀ r, inBounds r (selShape sel) = true → (B.arr.gather sel).get r = D.get []) ∧
+    ((∀ s ∈ sel, s.scalar = false) → D.shape = selShape sel →
+      ∀ r, inBounds r (selShape sel) = true → (B.arr.gather sel).get r = D.get r) := by
+  have hx := (C01_assign_exact A B ixs D sel hsel h).2.1
+  constructor
+  · intro hD r hr
+    rw [hx r hr, hD, bcastIdx_scalar_source]
+  · intro hns hD r hr
+    have hf := fullRel_nonscalar sel r hns hr
+    rw [hx r hr, hf.1, bcastIdx_exact sel r D.shape (by rw [hD, hf.2]) hns (by rw [hD]; exact hr)]
+
+/-- creation with data: the element type is the `dtype` argument, else the data's; a given `shape` must equal
+the data's shape (else ValueError); text needs `dtype=DataType.String` (else TypeError); the new array has the
+data's shape and reads back the data on every multi-index -/
+theorem C01_create_exact (dtype : Option DType) (shape : Option (List Nat)) (ddt : DType) (d : NdArray Elem)
+    (compr : Bool) :
+    (shapeAgrees shape (contiguous d).shape = true → ¬ (dtype = none ∧ ddt = .string) →
+      ∃ A, createDataArray dtype shape (some (ddt, d)) compr = .ok A ∧
+        A.dtype = chooseDType dtype ddt ∧ A.compressed = compr ∧
+        A.arr.shape = (contiguous d).shape ∧
+        ∀ idx, inBounds idx A.arr.shape = true → A.arr.get idx = (contiguous d).get idx) ∧
+    (shapeAgrees shape (contiguous d).shape = false →
+      createDataArray dtype shape (some (ddt, d)) compr = .error .valueError) := by
+  constructor
+  · intro hsh htxt
+    obtain ⟨B, hB, h1, h2, h3, h4⟩ := writeDirect_exact
+      ⟨chooseDType dtype ddt, compr, ⟨(contiguous d).shape, fun _ => (chooseDType dtype ddt).fill⟩⟩
+      (contiguous d) rfl (contiguous_rank d)
+    refine ⟨B, ?_, h1, h2, h3, fun idx hb => h4 idx (h3 ▸ hb)⟩
+    unfold createDataArray
+    simp only [hsh, Bool.not_true, Bool.false_eq_true, if_false]
+    rw [if_neg htxt]
+    exact hB
+  · intro hsh
+    unfold createDataArray
+    simp [hsh]
+
+/-- creation without data needs a shape; the element type defaults to float64; every element is the fill value -/
+theorem C01_create_empty (dtype : Option DType) (shape : Option (List Nat)) (compr : Bool) :
+    createDataArray dtype shape none compr =
+      (match shape with
+       | none => .error .valueError
+       | some sh => .ok ⟨chooseDType dtype .float64, compr,
+                         ⟨sh, fun _ => (chooseDType dtype .float64).fill⟩⟩) := by
+  unfold createDataArray
+  cases shape <;> rfl
+
+/-! Non-vacuity for the history theorems: a concrete accepted assignment that is not touched afterwards. -/
+example : Accepts [2, 3] (.resize [4, 1]) := ⟨rfl, by intro x hx; simp at hx; rcases hx with h | h <;> omega⟩
+example : Typed ⟨.int8, false, ⟨[2], fun _ => .int (-128)⟩⟩ := fun _ _ => by simp only; decide
+example : StepTyped .float32 (.write ⟨[1], fun _ => .f32 0x7fc00001⟩) := fun _ => by simp only; decide
+
+/-- the hypotheses of `C01_last_write_wins` are satisfiable: on a rank-1 array of 3 elements, `a[1] = 7` followed
+by a shrink to 2 elements leaves index 1 untouched -/
+example : Accepts [3] (.assign [.int 1] ⟨[], fun _ => .int 7⟩) ∧
+    written [3] (.assign [.int 1] ⟨[], fun _ => .int 7⟩) [1] = some (.int 7) ∧
+    Untouched (newShape [3] (.assign [.int 1] ⟨[], fun _ => .int 7⟩)) [.resize [2]] [1] := by
+  refine ⟨⟨[⟨1, 1, 1, true⟩], rfl, rfl⟩, rfl, ?_⟩
+  have hacc : Accepts (newShape [3] (.assign [.int 1] ⟨[], fun _ => .int 7⟩)) (.resize [2]) :=
+    ⟨rfl, by intro x hx; simp at hx; omega⟩
+  refine ⟨rfl, ?_⟩
+  rw [if_pos hacc]
+  exact ⟨rfl, rfl⟩
+
 /-! ## compression -/
+
+/-- what is read never depends on the filter: two arrays that differ only in the gzip flag go through any
+history in lock-step — same content, same refusals — and creation with either flag yields the same content -/
+theorem C01_compression_transparent (A : DArr) (c : Bool) (steps : List Step) :
+    run { A with compressed := c } steps = { run A steps with compressed := c } ∧
+    readAll (run { A with compressed := c } steps) = readAll (run A steps) ∧
+    (∀ ixs, readRegion (run { A with compressed := c } steps) ixs = readRegion (run A steps) ixs) := by
+  have h := run_compr steps A c
+  refine ⟨h, ?_, ?_⟩
+  · rw [h]; rfl
+  · intro ixs; rw [h]; rfl
+
 
 /-- reference reading of the three-level default: the array's own setting unless it is Auto, else the setting of
 the block handle (the handle `create_block` returned carries the block's setting, itself defaulting to the
